@@ -37,6 +37,21 @@ Theorem C08_crash_atomic : forall g s o k,
 Proof. exact crash_atomic. Qed.
 Print Assumptions C08_crash_atomic.
 
+(** the kill oracle of the check, at the level of views, on the model: after process death at any
+    call, open succeeds and the reopened replica (directory and memory) shows the old or the new chain *)
+Theorem C08_kill_reopen : forall g s o k,
+  cfg_ok g -> InvS g s -> plain o -> ok_op g s o ->
+  let w' := dir_of_run (exec (op_prog g (s_mem s) o) (s_fs s) 0 (Some k) None) in
+  let s2 := fst (fst (step g (mkst w' None) OOpen)) in
+  exists vpre vpost v2 m2,
+    recover g (s_fs s) = Some vpre
+    /\ recover g (s_fs (fst (fst (step g s o)))) = Some vpost
+    /\ snd (fst (step g (mkst w' None) OOpen)) = ResOk
+    /\ recover g (s_fs s2) = Some v2 /\ (veq v2 vpre \/ veq v2 vpost)
+    /\ s_mem s2 = Some m2 /\ mchain g m2 = Some (names_of_chain (cv_chain v2)).
+Proof. exact kill_reopen_model. Qed.
+Print Assumptions C08_kill_reopen.
+
 (** the same over histories: any history (with process deaths inside operations), then one more
     operation interrupted anywhere *)
 Theorem C08_crash_atomic_reachable : forall g size now os o k,
